@@ -324,11 +324,13 @@ async def stalled_log_scenario(out, args, wd, oport):
 async def main(args):
     from . import lib as _lib
     _lib.UNIQUE_SRC = True   # records are joined with connections by source port
-    out = Out("C13", "c13", "configs {timeouts absent, idle 0/udp 0, idle 2/udp 4, idle 4/udp 2} x listener kinds {http, socks, reverse-tcp, reverse-udp, socks-udp, CONNECT-over-QUIC} x traffic patterns {silent, trickle just under the period, burst then silence} x io modes; /api/live wiring check and wall-clock close window. distinct = distinct (listener kind, pattern, config, io mode)")
+    out = Out("C13", "c13", "configs {timeouts absent, idle 0/udp 0, idle 2/udp 4, idle 4/udp 2, idle 6/udp 6} x listener kinds {http, socks, reverse-tcp, reverse-udp, socks-udp, CONNECT-over-QUIC} x traffic patterns {silent, trickle just under the period, burst then silence} x io modes; /api/live wiring check and wall-clock close window. distinct = distinct (listener kind, pattern, config, io mode)")
     rng = random.Random(args.seed)
     origin = await TcpOrigin(echo_handler, host="127.0.0.1").start()
     utr, upr, uport = await udp_endpoint(lambda: UdpEcho())
-    configs = [("absent", None, 600, 600), ("zero", {"idle": 0, "udp": 0}, 0, 0), ("idle2-udp4", {"idle": 2, "udp": 4}, 2, 4), ("idle4-udp2", {"idle": 4, "udp": 2}, 4, 2)]
+    configs = [("absent", None, 600, 600), ("zero", {"idle": 0, "udp": 0}, 0, 0), ("idle2-udp4", {"idle": 2, "udp": 4}, 2, 4), ("idle4-udp2", {"idle": 4, "udp": 2}, 4, 2),
+               # a period well above tick + slack: a proxy that only looks every T seconds closes up to T late, which a small T hides
+               ("idle6-udp6", {"idle": 6, "udp": 6}, 6, 6)]
     ios = [("splice", {"bufferSize": 65536, "useSplice": True})]
     if args.thorough:
         ios.append(("buffered", {"bufferSize": 4096, "useSplice": False}))
@@ -348,6 +350,8 @@ async def main(args):
                         T = t_tcp  # enforced by A on the QUIC stream; C has timeouts disabled
                     if cname == "absent":
                         pats = ["wiring-only"]
+                    elif cname == "idle6-udp6":
+                        pats = ["burst"] if kind in ("http", "socks-udp", "rev") else []
                     elif cname == "zero":
                         pats = ["silent"] if (args.thorough or kind in ("http", "revudp")) else []
                     else:
